@@ -7,6 +7,7 @@
 //!   abasic-sim logs   <ID> <seed> <from> <count>     canonical per-run log hashes (determinism self-test)
 
 mod ast;
+mod drive;
 mod engine;
 mod gen;
 mod hostile;
@@ -30,8 +31,16 @@ macro_rules! dispatch {
                 type $p = props::c03::C03;
                 $body
             }
+            "C07" => {
+                type $p = props::c07::C07;
+                $body
+            }
             "C08" => {
                 type $p = props::c08::C08;
+                $body
+            }
+            "C10" => {
+                type $p = props::c10::C10;
                 $body
             }
             "C17" => {
